@@ -264,4 +264,25 @@ mod verif_replay_sendio {
             assert_eq!(run(&delay_doc(c)), Ok(vec!["pass".to_string()]), "content {}", c);
         }
     }
+
+    /// C16 (bounded): a delay text denotes the same number of milliseconds in every unit the CSS2 format allows
+    /// (the due time handed to the timer comes from this function)
+    #[test]
+    fn verif_replay_sendio_delay_units() {
+        use crate::executable_content::parse_duration_to_milliseconds as p;
+        for (text, ms) in [
+            ("0ms", 0i64), ("1ms", 1), ("150ms", 150), ("1s", 1_000), ("1.5s", 1_500), ("0.25s", 250), ("2S", 2_000),
+            ("1m", 60_000), ("0.5m", 30_000), ("90m", 5_400_000), ("2M", 120_000),
+            ("1h", 3_600_000), ("1.5h", 5_400_000), ("0.0001h", 360), ("24H", 86_400_000), ("2H", 7_200_000),
+            ("1d", 86_400_000), ("0.5d", 43_200_000), ("2D", 172_800_000), ("3MS", 3),
+        ] {
+            assert_eq!(p(text), ms, "delay `{}` in milliseconds", text);
+        }
+        assert_eq!(p("1h"), p("60m"), "1h and 60m");
+        assert_eq!(p("1m"), p("60s"), "1m and 60s");
+        assert_eq!(p("1d"), p("24h"), "1d and 24h");
+        assert_eq!(p("1s"), p("1000ms"), "1s and 1000ms");
+        assert_eq!(p(""), 0, "no delay");
+        assert!(p("1x") < 0 && p("abc") < 0, "unknown unit / no number is illegal");
+    }
 }
